@@ -225,15 +225,22 @@ func (cdp *ContractDiscoveryProcessor) Outcome(
 	donThresh := consensus.MakeConstantThreshold[cciptypes.ChainSelector](consensus.TwoFPlus1(cdp.fRoleDON))
 	fChain := consensus.GetConsensusMap(cdp.lggr, "fChain", agg.fChain, donThresh)
 	fChainThresh := consensus.MakeMultiThreshold(fChain, consensus.TwoFPlus1)
-	destThresh := consensus.MakeConstantThreshold[cciptypes.ChainSelector](consensus.TwoFPlus1(fChain[cdp.dest]))
 
 	contracts := make(reader.ContractAddresses)
-	onrampConsensus := consensus.GetConsensusMap(
-		cdp.lggr,
-		"onramp",
-		agg.onrampAddrs,
-		destThresh,
-	)
+	// onramps are read from the destination chain: without a consensus on the destination's f there is no
+	// threshold to apply (a missing map entry must not be read as f = 0, i.e. a threshold of one observation).
+	onrampConsensus := make(map[cciptypes.ChainSelector]cciptypes.UnknownAddress)
+	if fDest, ok := fChain[cdp.dest]; ok {
+		destThresh := consensus.MakeConstantThreshold[cciptypes.ChainSelector](consensus.TwoFPlus1(fDest))
+		onrampConsensus = consensus.GetConsensusMap(
+			cdp.lggr,
+			"onramp",
+			agg.onrampAddrs,
+			destThresh,
+		)
+	} else {
+		cdp.lggr.Warnw("No consensus on fChain of the destination chain, skipping onramp consensus", "dest", cdp.dest)
+	}
 	cdp.lggr.Infow("Determined consensus onramps",
 		"onrampConsensus", onrampConsensus,
 		"onrampAddrs", agg.onrampAddrs,
